@@ -1,6 +1,7 @@
 (* C10 — Syncing reaches quiescence: no echo uploads, no write amplification. Property theorems only. *)
 From LS Require Import Base.Bytes Base.Res Header.Model Merge.Model Merge.Version Shadow.Model
-  Instance.Model Instance.Proofs Instance.Ids Instance.IdsProofs.
+  Strategy.Model Strategy.Order Strategy.Proofs
+  Instance.Model Instance.Proofs Instance.ShadowNoop Instance.Ids Instance.IdsProofs Instance.IdsQuiesce.
 Open Scope N_scope.
 
 (* merging a snapshot that contains nothing newer than the local data commits NO LMDB transaction
@@ -19,9 +20,43 @@ Theorem C10_noop_load_native : forall c e s ls now cutoff,
   /\ adjust_id (e_last e + 1) (e_last e) = e_last e.
 Proof. exact load_txn_noop_native. Qed.
 Print Assumptions C10_noop_load_native.
-(* shadow mode: the same statement needs the mirror invariant (application DBIs = live shadow content); it is
-   checked on the real code by the re-merge oracle of the `instance` area and on the model by the
-   correspondence; not mechanised (C10_noop_load_shadow: see DESIGN.md). *)
+(* shadow mode, DBIs without the dupsort hack. The projection onto the application DBI is a function of the
+   shadow DBI alone: whatever the application DBI held, after shadowToMain it is exactly [proj] of the shadow
+   entries (the live entries with a non-empty value, in key order) — so LoadOnce itself establishes the
+   mirror invariant [mirrored] that the no-op statement below assumes *)
+Theorem C10_projection_exact : forall flags dom main shadow l,
+  ord_ok (dbi_cmp flags) dom ->
+  sorted (dbi_cmp flags) dom (keys shadow) -> Forall dom (keys main) ->
+  read_hdr shadow = Ok l ->
+  shadow_to_main flags main shadow = Ok (proj l).
+Proof. exact shadow_to_main_exact. Qed.
+Print Assumptions C10_projection_exact.
+
+(* shadow mode: no local change since the last sync, a snapshot with nothing newer than the shadow DBIs,
+   every public DBI mirrored (not DUPSORT): the transaction commits NOTHING (environment and LastTxnID
+   unchanged), reports localChanged = false and hands LastTxnID back, so no upload follows — every format
+   version, with and without padding, any number of DBIs incl. private ones *)
+Theorem C10_noop_load_shadow : forall c e s ls now cutoff,
+  i_native c = false -> i_cancelled c = false -> dbis_sorted (e_dbis e) ->
+  e_last e <= ls ->
+  new_native_iterator (sn_fmt s) (sn_compat s) (e_last e + 1) = Ok tt ->
+  (forall d, In d (sn_dbis s) -> nothing_newer c (sn_fmt s) (e_last e + 1) cutoff (e_dbis e) d) ->
+  (forall name, In name (dbi_names (e_dbis e)) -> has_prefix sync_prefix name = false -> mirrored (e_dbis e) name) ->
+  load_txn c e s ls now cutoff = Ok (e, e_last e + 1, false)
+  /\ adjust_id (e_last e + 1) (e_last e) = e_last e.
+Proof. exact load_txn_noop_shadow. Qed.
+Print Assumptions C10_noop_load_shadow.
+(* with the dupsort hack the application DBI is rebuilt (Drop + Put) on every load — that transaction is
+   always recorded; the property exempts it ("for DBIs without the dupsort hack") *)
+
+(* non-vacuity: a mirrored environment (application DBI "a" = {k: v}, shadow entry (ts 5, v)), a snapshot
+   carrying an OLDER version of k: nothing is committed *)
+Example C10_noop_shadow_example :
+  let sh := [([107], be64 5 ++ be64 3 ++ [0;0;0;0;0;0;0;0] ++ [118])] in
+  let e := mkEnv [(shadow_prefix ++ [97], mkDbi 0 sh); ([97], mkDbi 0 [([107], [118])])] 4 in
+  load_txn (mkICfg false false false false false) e
+    (mkSnap 3 1 [mkSDbi [97] 0 [] [mkKV [107] [119] 3 0]]) 4 1000 0 = Ok (e, 5, false).
+Proof. vm_compute. reflexivity. Qed.
 
 (* no echo: after a load that found no local change, if no application commit follows, lastSynced = LastTxnID:
    the upload check finds nothing to send — every interleaving, both modes *)
@@ -38,6 +73,37 @@ Theorem C10_upload_has_cause : forall shadow l s s',
   synced s = 0 \/ exists a, In a (apps s) /\ synced s < a <= last s.
 Proof. exact upload_has_cause. Qed.
 Print Assumptions C10_upload_has_cause.
+
+(* "after applications stop writing, the fleet stops producing snapshots after a bounded number of
+   exchanges": in a run WITHOUT application commits an instance completes at most two more uploads (the one in
+   flight, and one for a commit that arrived while it was in flight) from ANY state of the loop, through any
+   number of snapshot loads, dirty or not, with Store failures, native and shadow mode alike; n instances
+   hence produce at most 2n further snapshots *)
+Theorem C10_bounded_uploads : forall shadow s k s', quiet shadow s k s' -> (k <= 2)%nat.
+Proof. exact quiet_bounded. Qed.
+Print Assumptions C10_bounded_uploads.
+(* from the top of the loop: at most one *)
+Theorem C10_pending_once : forall shadow s k s', at_ s = Top -> quiet shadow s k s' -> (k <= 1)%nat.
+Proof. exact quiet_pending. Qed.
+(* an idle instance (top of the loop, lastSynced = LastTxnID) never uploads again however many remote
+   snapshots it merges, and is idle again at every later visit of the top of the loop: no feedback loop *)
+Theorem C10_idle_forever : forall shadow s k s',
+  at_ s = Top -> ~ (synced s < last s) -> quiet shadow s k s' ->
+  k = 0%nat /\ (at_ s' = Top -> ~ (synced s' < last s')).
+Proof. exact quiet_idle. Qed.
+Print Assumptions C10_idle_forever.
+(* non-vacuity: a pending change is uploaded exactly once along this quiet run (k = 1) *)
+Example C10_quiet_example :
+  exists k, quiet false (mkSt 5 3 0 3 [5] Top) k (mkSt 5 5 0 5 [5] Top) /\ k = 1%nat.
+Proof.
+  eexists. split.
+  - eapply q_step; [exact (s_check_send false (mkSt 5 3 0 3 [5] Top) eq_refl ltac:(cbn; lia))|reflexivity|].
+    eapply q_step; [exact (s_send_txn false (mkSt 5 3 0 3 [5] SendBegin) false eq_refl)|reflexivity|].
+    eapply q_step; [exact (s_send_info false (mkSt 5 3 0 3 [5] (SendInfo 5 5 5)) 5 5 5 eq_refl)|reflexivity|].
+    eapply q_step; [exact (s_store_ok false (mkSt 5 3 0 3 [5] (Storing 5 5)) 5 5 eq_refl)|reflexivity|].
+    apply q_nil.
+  - reflexivity.
+Qed.
 
 Example C10_example :
   let e := mkEnv [([97], mkDbi 0 [([107], be64 9 ++ be64 3 ++ [0;0;0;0;0;0;0;0] ++ [118])])] 3 in
